@@ -343,13 +343,18 @@ def finding_fn(a):
     return fn
 
 
+def _strip(t):
+    from facts import strip_targs
+    return strip_targs(t)
+
+
 def extra_field_fork(P, cls, known):
     """the condition of a branch this path took without the evaluator deciding it, if it tests a member of `cls` that is not in
     `known` (a cached count, a flag, a derived value the rule tables know nothing about); else None.  Such a path neither proves
     nor refutes a row: what the test means is not followed."""
     def mentions(e, depth=0):
         for x in e.walk():
-            if x.k == 'member' and x.field and ((x.d.get('class') or '') == cls or (x.d.get('class') or '').startswith(cls + '<')) and x.name not in known: return True
+            if x.k == 'member' and x.field and _strip(x.d.get('classfull') or x.d.get('class') or '') == cls and x.name not in known: return True
             if x.k == 'ref' and x.dk == 'local' and depth < 3:
                 # a local that was given its value from such a member (`bool idle = m_idleCount > 0; … if (idle)`)
                 for src in _local_sources(x):
